@@ -179,8 +179,21 @@ pub fn weak(cx: &mut Ctx, args: &Args, rng: &mut Rng) -> i32 {
         for _ in 0..nrand {
             keys.push(("random".into(), r.bytes(ksz)));
         }
+        // word-level sparse keys (equal / zero words at arbitrary slots) and zero prefixes / suffixes: what a screening
+        // predicate that folds the key word-wise can get wrong
+        for _ in 0..(nrand / 4).max(8) {
+            keys.push(crate::rng::wordmask(&mut r, ksz));
+            keys.push(crate::rng::zero_affix(&mut r, ksz));
+        }
         match cx.types[ti].family {
             "AES" => {
+                // the screened half on its own: word-sparse upper half, random lower half
+                for _ in 0..16 {
+                    let mut k = r.bytes(ksz);
+                    let (_, up) = crate::rng::wordmask(&mut r, ksz / 2);
+                    k[..ksz / 2].copy_from_slice(&up);
+                    keys.push(("upper-wordmask".into(), k));
+                }
                 // every single-nonzero-byte key at every position (exhaustive over that family)
                 for i in 0..ksz {
                     keys.push(("bytewalk".into(), byte_walk(ksz, i, 1 + r.below(255) as u8)));
